@@ -87,7 +87,7 @@ pub fn checks() -> Vec<Check> {
             st("c02.s2", c02::s2, (0, 0), 3, "all programs of depth <=3/4 over the 30-op alphabet x 3 finalize modes (plain, identity transformer, transformer appending a foreign element)"),
             st("c02.s4", c02::s4, (0, 0), 3, "C01-S4 programs (hooked capacity x point counts x every catalogue type)"),
             st("c02.meta", c02::meta, (0, 0), 3, "1905 metadata-rich files (every catalogue string incl. non-ASCII and astral characters in every string field, 5 image kinds rotating)"),
-            st("c02.ext", c02::ext, (0, 0), 3, "all sequences of <=3 extension registration attempts over 2 prefixes x {2 URLs, empty URL} (a prefix can be registered once, never with an empty URL), then a cloud with an extension attribute"),
+            st("c02.ext", c02::ext, (0, 0), 3, "all sequences of <=3 extension registration attempts over 2 prefixes x {2 URLs, empty URL, the E57 namespace, the two reserved XML namespace names} (a prefix can be registered once, never with one of the unusable names), then a cloud with an extension attribute"),
             st("c02.blobs", c02::blobs, (0, 0), 3, "blob + cylindrical image payload length 0..=1023 x 17 start residues; payload sources delivering in full / in halves / alternating (rotated)"),
             st("c02.long_blobs", c02::long_blobs, (0, 0), 3, "blob and image payloads of 12 long lengths (multi-page, around powers of two, up to 1 MiB) x 3 source read modes"),
         ],
@@ -127,7 +127,7 @@ pub fn checks() -> Vec<Check> {
             st("c04.lattice", c04::lattice, (3, 4), 3, "presence lattice of 34 optional fields (root, cloud, image): all subsets within <=3 (thorough <=4) toggles of all-absent and of all-present x 5 image kinds x 3 finalize modes"),
             st("c04.types", c04::types, (0, 0), 3, "every catalogue data type (floats with none / both / one-sided limits, ~190 integer and scaled-integer ranges) as coordinate, intensity, colour, time stamp and extension record: prototype read back unchanged"),
             st("c04.scale", c04::scale, (0, 0), 3, "strings of 65535 / 70001 characters (ASCII, 2-byte, 4-byte, markup) in every string field x image kinds; 300 registered extensions"),
-            st("c04.ext", c04::ext, (0, 0), 3, "all sequences of <=3 extension registration attempts over 2 prefixes x {2 URLs, empty URL}: the reader lists exactly the accepted registrations"),
+            st("c04.ext", c04::ext, (0, 0), 3, "all sequences of <=3 extension registration attempts over 2 prefixes x {2 URLs, empty URL, E57 namespace, reserved XML namespace names}: the reader lists exactly the accepted registrations"),
             st("c04.strings", c04::strings, (0, 0), 3, "every catalogue string (all strings of length <=3 over 12 XML-critical characters + 20 long ones) in every string field, rotated per field"),
             st("c04.floats", c04::floats, (0, 0), 3, "every float of the mini-float lattice + specials (NaN, inf, subnormals, extremes) in every float field x 3 projection kinds"),
         ],
@@ -225,6 +225,7 @@ pub fn checks() -> Vec<Check> {
             st("c10.protos_mutated", c10::protos_mutated, (0, 0), 3, "catalogue prototypes with one record deleted / duplicated / retyped"),
             st("c10.protos_groups", c10::protos_groups, (0, 0), 3, "all name sequences of length 1..4 over the 9 coordinate/colour component names (every combination of missing and repeated group members)"),
             Stage { timeout_s: 120, ..st("c10.protos_wide", c10::protos_wide, (0, 0), 3, "XYZ + k extension records (64-bit / 1-bit / zero-width) for every k in 5880..5930, 20790..20830, 21650..21700, 60..64 x {1,3} points: every call returns, success implies read-back") },
+            st("c10.strings", c10::strings, (0, 0), 3, "12 strings with characters XML cannot carry (NUL, C0 controls, U+FFFE/FFFF) or with carriage returns x every string field (rotation over 40 fields) x 2 image kinds: refused by some call, or stored faithfully"),
             st("c10.values", c10::values, (0, 0), 3, "unstorable value (9 kinds) at every position 0..8 of a 9-point cloud x 8 integer types x 2 record slots"),
             st("c10.orders", c10::orders, (0, 0), 3, "all sequences of depth <=4 (quick) / <=5 (thorough) over 15 API sessions incl. misuse x 3 finalize modes"),
         ],
